@@ -956,6 +956,18 @@ func c17Mutate(p *prng, text string) (string, string, string, string) {
 		if q[k].kind == 'i' && (low == "rule" || low == "when" || low == "then") {
 			exp, why = "reject", "the keyword "+q[k].s+" was deleted"
 		}
+		if q[k].s == ";" {
+			// `x = e; -1.M();` without the `;` is the one statement `x = e - 1.M();`: a minus sign is the only token that
+			// can both start a statement (negative literal) and continue an expression
+			for _, j := range toks {
+				if j > k {
+					if strings.HasPrefix(q[j].s, "-") {
+						exp, why = "", ""
+					}
+					break
+				}
+			}
+		}
 		q[k].s = " "
 		return joinPieces(q), "tok-del", exp, why
 	case 1: // duplicate a token
